@@ -72,6 +72,7 @@ K_VSUSP = "captured-command-leaves-the-suspend-character-disabled"
 K_STDERR_CLOSED = "o2e-capture-start-failure-closes-session-stderr"
 K_EBADF = "alias-stage-finds-its-pipe-end-closed-and-never-publishes-a-return-code"
 K_O2E_ALIAS = "o2e-capture-closes-session-stderr-while-an-alias-stage-runs"
+K_SIGINT_SYNC = "sigint-to-the-shell-alone-is-not-forwarded-on-the-synchronous-iterraw-path"
 K_STD = "overlapping-alias-threads-leave-sys-stdout-on-the-dispatcher"
 
 SIGS = ["SIGINT", "SIGTSTP", "SIGQUIT", "SIGWINCH"]
@@ -96,6 +97,8 @@ def _alias_t(args, stdin=None, stdout=None, stderr=None):
     elif wr == "big":
         for i in range(20000):
             print(i, file=stdout)
+    elif wr == "sleep":
+        time.sleep(8)
     elif wr == "bad":
         stdout.flush()
         stdout.buffer.write(b"ok\n\xff\xfe\n")
@@ -139,6 +142,8 @@ def session():
 
     @unthreadable
     def u(args, stdin=None, stdout=None, stderr=None):
+        if len(args) > 1 and args[1] == "sleep":
+            time.sleep(8)
         print("hi", file=stdout)
         return int(args[0]) if args else 0
 
@@ -332,7 +337,7 @@ def _children():
 
 
 def _threads():
-    return sorted(type(t).__name__ for t in threading.enumerate() if t is not threading.main_thread() and t.name != "xv-drain")
+    return sorted(type(t).__name__ for t in threading.enumerate() if t is not threading.main_thread() and t.name not in ("xv-drain", "xv-sigint"))
 
 
 def _hdesc(h, base):
@@ -632,6 +637,11 @@ def _run_case_here(item):
                 if out.get("wall", 0) > 0.25:
                     reps = max(3, min(reps, int(0.5 * item.get("timeout", 40) / out["wall"])))
                     out["reps_done"] = reps
+            if rep == 0 and item.get("sigint_after"):
+                # Ctrl-C while the command runs, delivered to the shell process ONLY (its children get nothing from us)
+                tm = threading.Timer(item["sigint_after"], lambda: os.kill(os.getpid(), signal.SIGINT))
+                tm.name, tm.daemon = "xv-sigint", True
+                tm.start()
             exc = _exec(item["src"])
             _drain(master)
             lc = XSH.lastcmd
@@ -729,12 +739,14 @@ def render_stage(st):
         elif not st["found"]:
             # two ways of failing to start: FileNotFoundError -> XonshError, or a ValueError out of Popen itself (NUL in the environment)
             cmd = '$XV_NUL="a\\0b" ' + _sh(b) if st.get("fail_how") == "nul-env" else "xv-no-such-command arg"
+        elif b["write"] == "sleep":
+            cmd = "sleep 8"  # exec'd directly: the child IS the long-running process
         else:
             cmd = _sh(b)
     elif st["kind"] == "thr":
         cmd = f't {b["read"]} {b["write"] if b["write"] != "endless" else "big"} {b["rc"]} {1 if b.get("raises") else 0} {1 if b.get("err") else 0}'
     else:
-        cmd = f'u {b["rc"]}'
+        cmd = f'u {b["rc"]}' + (" sleep" if b["write"] == "sleep" else "")
     for r in st["redirs"]:
         cmd += " " + (r["op"] + (" " + r["path"] if "path" in r else ""))
     if st.get("dec") and not cmd.startswith("$"):
@@ -1023,13 +1035,15 @@ def judge(ctx, stream, case, obs, variant):
             dis.append(["open-while-exception-held", [list(x) for x in held], [list(x) for x in m_held]])
         if not same(final, m_final):
             dis.append(["open-after", [list(x) for x in final], [list(x) for x in m_final]])
+    sig = bool(case.get("sigint_after"))
     n_child = len([x for x in m["final"] if x[1] == "child"])
     n_thread = len([x for x in m["final"] if x[1] == "thread"])
     # a child whose `wait(timeout=3)` expired in _close_prev_procs (it was still blocked then) is "waited for" in the ledger
     timed_out = {str(p) for p in r0.get("wait_timeouts", [])}
     unexplained = {pid: st for pid, st in d.get("children", {}).items() if str(pid) not in timed_out}
     ended_ = case["capture"] == "object" or not case["background"]
-    if len(unexplained) != n_child and ended_:
+    # (an interrupted wait is still a wait to the ledger: whether the children are gone after a SIGINT is for the property part)
+    if len(unexplained) != n_child and ended_ and not sig:
         dis.append(["children", d.get("children"), n_child])
     real_h = list(d.get("handlers", dict.fromkeys(SIGS, "orig")).values())
     real_hn = ["orig" if x == "orig" else (["stage", x[1]] if isinstance(x, list) else x) for x in real_h]
@@ -1041,7 +1055,9 @@ def judge(ctx, stream, case, obs, variant):
     extra_threads = [t for t in d.get("threads", [])]
     leaked_stages = [x[0] for x in m["final"] if x[1] in ("child", "thread")]
     may_live = n_thread if not leaked_stages else len([s for s in case["stages"][: max(leaked_stages) + 1] if s["kind"] == "thr"])
-    if not ended_:
+    if sig:
+        pass
+    elif not ended_:
         # a pipeline nobody ends: its proc threads (and a PopenThread's reader threads) live as long as the job does
         if extra_threads and not n_thread:
             dis.append(["threads", extra_threads, n_thread])
@@ -1068,6 +1084,8 @@ def judge(ctx, stream, case, obs, variant):
             fails.append((k, d[k], f"{k} changed"))
     if obs["sigint"] != "KeyboardInterrupt":
         fails.append(("sigint", obs["sigint"], "a SIGINT sent to the shell after the command does not raise KeyboardInterrupt"))
+    if sig and obs.get("wall", 0) > 7.5:
+        fails.append(("not-interrupted", {"wall_s": obs["wall"], "raised": obs["raised"]}, "a SIGINT sent to the shell while the command ran did not end the command: it ran until its long stage ended by itself"))
     tty0 = (obs.get("tty") or {}).get("0")
     if tty0:
         if not tty0.get("fg_is_shell"):
@@ -1094,10 +1112,18 @@ def judge(ctx, stream, case, obs, variant):
         "std" in d and n_thr >= 2 and set(d["std"]) <= {"sys.stdout", "sys.stderr"}
         and all(v == ["FileThreadDispatcher", "default is the original object"] for v in d["std"].values())
     )
+    # which branch of CommandPipeline.iterraw the command takes: the synchronous one (`$()`, or a last stage that is not threadable)
+    # never looks at the procs' _interrupted flag and nobody forwards the signal to the pipeline's children
+    last_ = case["stages"][-1]
+    last_threadable = last_["kind"] == "thr" or (last_["kind"] == "ext" and (case["capture"] in ("stdout", "object") or (case["capture"] in ("bare", "hidden") and case.get("capture_always"))))
+    sync_path = case["capture"] == "stdout" or not last_threadable
     for what, observed, why in fails:
         key = None
-        if faithful:
-            if what == "children" and not unexplained and ended and not res_leak:
+        if sig and sync_path and m["why"] == "ok" and not m["start_failed"] and (
+                what in ("children", "not-interrupted") or (what == "threads" and set(observed) <= {"PrevProcCloser"})):
+            key = K_SIGINT_SYNC
+        elif faithful:
+            if what == "children" and not unexplained and ended and not res_leak and not sig and set(observed.values()) <= {"Z"}:
                 key = K_WAIT
             elif what in ("descriptors", "children", "threads"):
                 key = leak_key
@@ -1204,7 +1230,8 @@ def to_item(case, reps=1):
         env["XONSH_ENCODING_ERRORS"] = "strict"
     if case.get("flags"):
         env["XONSH_SUBPROC_RAISE_ERROR"], env["XONSH_SUBPROC_CMD_RAISE_ERROR"] = bool(case["flags"][0]), bool(case["flags"][1])
-    return {"src": case["src"], "end_object": case["capture"] == "object", "env": env, "reps": reps, "tty": bool(case.get("tty"))}
+    return {"src": case["src"], "end_object": case["capture"] == "object", "env": env, "reps": reps, "tty": bool(case.get("tty")),
+            "sigint_after": case.get("sigint_after")}
 
 
 # ======================================================================================= streams
@@ -1346,6 +1373,71 @@ def stream_channels(ctx, n, name="pipechannel-close-idempotence"):
         if max(obs["close_calls"]) > 1 or obs["errors"] or not obs["decoys_ok"]:
             ctx.spec_failure(info, {"os_close_calls_per_end": obs["close_calls"], "escaped": obs["errors"], "decoys_survived": obs["decoys_ok"]},
                              "closing a PipeChannel is not idempotent (a descriptor number closed twice / an exception / somebody else's descriptor closed)", None)
+
+
+def gen_sigint_case(rng, tty):
+    """a pipeline with ONE long-running stage (8 s) that will be interrupted by a SIGINT sent to the shell process alone"""
+    n = rng.choice([1, 2, 2, 3, 3])
+    pos = rng.randrange(n)
+    # the long stage is a process, or an unthreadable alias on the main thread; NOT an alias on a proxy thread: Python offers no way
+    # of stopping a thread, so such a stage runs on after the shell has given up on it (3 s join) by construction
+    long_kind = "ext" if n > 1 else rng.choice(["ext", "ext", "ext", "unthr"])
+    stages = []
+    for k in range(n):
+        if k == pos:
+            kind, beh = long_kind, {"read": "none", "write": "sleep", "rc": 0, "raises": False, "err": False}
+        else:
+            kind = rng.choice(["ext", "thr"])
+            # in front of the long stage: something that writes and ends; behind it: something that waits for its EOF, or not
+            beh = {"read": "none" if k < pos else rng.choice(["all", "all", "none"]), "write": rng.choice(["small", "none"]), "rc": 0, "raises": False, "err": False}
+        stages.append({"kind": kind, "beh": beh, "redirs": [], "found": True, "buildOk": True})
+    case = {"mode": f"sigint during a long {long_kind} stage", "stages": stages, "capture": rng.choice(["bare", "hidden", "uncaptured", "stdout", "object"]),
+            "background": False, "capture_always": False, "flags": [rng.random() < 0.75, False], "sigint_after": 0.6, "long_stage": pos}
+    if tty:
+        case["tty"] = True
+    case["src"] = render(case)
+    return case
+
+
+def stream_sigint(ctx, n, variant, name="sigint-during-the-command"):
+    ctx.stream_rule(
+        name,
+        "generated pipelines of 1-3 stages with ONE long-running stage (an external `sleep 8`, or alone an unthreadable alias "
+        "sleeping on the main thread; not an alias on a proxy thread - a Python thread cannot be stopped) at any position, alias and external neighbours (writers in "
+        "front, stages waiting for its EOF or not behind), every capture form, plain and as an interactive shell on a pty; 0.6 s "
+        "into the command a SIGINT is sent to the SHELL PROCESS ONLY (what a Ctrl-C amounts to for a script, or when the job is "
+        "not the terminal's foreground group): the command must end within 7.5 s (two 3 s join timeouts are tolerated), and then the same before / after observation "
+        "applies - no child still running or un-reaped, no helper thread, descriptors, handlers, std streams, terminal as before, a "
+        "further self-sent SIGINT still raises KeyboardInterrupt; the ledger is asked with endAborts as observed",
+    )
+    # one directed shape per branch of iterraw x who is last x where the long stage sits, plain and on the pty; then generated ones
+    directed = [
+        ("bare", [("ext", "none", "sleep"), ("thr", "all", "small")], False),       # threadable branch, alias last, long stage in front
+        ("object", [("ext", "none", "sleep"), ("thr", "all", "none")], False),
+        ("hidden", [("thr", "none", "small"), ("ext", "none", "sleep"), ("thr", "all", "small")], False),
+        ("object", [("ext", "none", "sleep"), ("ext", "all", "none")], False),     # threadable branch, PopenThread last
+        ("object", [("ext", "none", "small"), ("ext", "none", "sleep")], False),
+        ("bare", [("ext", "none", "sleep")], False),                               # synchronous branch, plain Popen
+        ("stdout", [("ext", "none", "sleep"), ("thr", "all", "small")], False),    # synchronous branch because of $()
+        ("uncaptured", [("ext", "none", "sleep"), ("ext", "all", "none")], False),
+        ("bare", [("ext", "none", "sleep"), ("thr", "all", "small")], True),
+        ("object", [("thr", "none", "small"), ("ext", "none", "sleep"), ("thr", "all", "none")], True),
+    ]
+    cases = []
+    for cap, stages, tty in directed[: max(4, n // 2)]:
+        c = {"mode": "sigint during a long ext stage (directed)", "capture": cap, "background": False, "capture_always": False, "flags": [True, False],
+             "sigint_after": 0.6, "stages": [{"kind": k_, "beh": {"read": rd, "write": wr, "rc": 0, "raises": False, "err": False}, "redirs": [], "found": True, "buildOk": True}
+                                             for k_, rd, wr in stages]}
+        if tty:
+            c["tty"] = True
+        c["src"] = render(c)
+        cases.append(c)
+    cases += [gen_sigint_case(ctx.rng, tty=(k % 3 == 2)) for k in range(max(0, n - len(cases)))]
+    results = run_batch([to_item(c) for c in cases])
+    for c, obs in zip(cases, results):
+        ctx.case(name, c["src"] + repr(c.get("tty")), True, {"source": c["src"], "mode": c["mode"], "tty": bool(c.get("tty"))})
+        ctx.count(f"sigint/{c['mode']}/{c['capture']}")
+        judge(ctx, name, c, obs, variant)
 
 
 def stream_tty(ctx, n, variant, name="interactive-on-a-pty"):
@@ -1543,6 +1635,8 @@ def replay_known(ctx):
                 bad = bool(r0.get("wait_timeouts")) and bool(d.get("children"))
             elif f["key"] == K_VSUSP:
                 bad = bool(tty0.get("attr_diff"))
+            elif f["key"] == K_SIGINT_SYNC:
+                bad = bool(d.get("children"))
             elif f["key"] in (K_STDERR_CLOSED, K_O2E_ALIAS):
                 bad = any(obs.get("real_std_closed") or [])
             else:
@@ -1581,6 +1675,7 @@ def run(ctx):
     ctx.extra["model_variant"] = {"teardown": variant[0], "lifo": variant[1], "closeOwn": variant[2]}
     stream_shapes(ctx, ctx.n(360, 3600), variant)
     stream_tty(ctx, ctx.n(100, 900), variant)
+    stream_sigint(ctx, ctx.n(24, 240), variant)
     stream_repetition(ctx, ctx.n(11, 33), ctx.n(40, 200), variant)
     stream_channels(ctx, ctx.n(150, 3000))
 
